@@ -71,7 +71,7 @@ class Contract:
     """
 
     def __init__(self, fn, name, pre, post, assigns=(), ghosts=(), mode="S", replaces=(), loops=None, unwind=None,
-                 kind="unbounded", extra_flags=(), objbits=None, note="", prop=None, props=None, timeout=None):
+                 kind="unbounded", extra_flags=(), objbits=None, note="", prop=None, props=None, timeout=None, backends=None):
         self.fn = fn
         self.name = name
         self.pre = list(pre)
@@ -88,6 +88,7 @@ class Contract:
         self.note = note
         self.props = set(props) if props else ({prop} if prop else set())
         self.timeout = timeout
+        self.backends = backends  # preferred order of back-end names (products: put kissat/z3 first)
 
     @property
     def unit(self):
@@ -347,10 +348,10 @@ def run_contract(c, tier="quick", keep=False):
         flags = list(CHECK_FLAGS) + list(c.extra_flags)
         if c.unwind:
             flags += ["--unwind", str(c.unwind), "--unwinding-assertions"]
-        if c.objbits:
-            flags += ["--object-bits", str(c.objbits)]
+        flags += ["--object-bits", str(c.objbits or 10)]
         last = ""
-        for name, bflags, tmo in BACKENDS:
+        order = BACKENDS if not c.backends else sorted(BACKENDS, key=lambda b: (c.backends.index(b[0]) if b[0] in c.backends else 99))
+        for name, bflags, tmo in order:
             if c.timeout:
                 tmo = c.timeout
             if tier == "thorough":
